@@ -60,10 +60,6 @@ def eval_case(case):
             pth = os.path.join(pr.root, rel)
             body = open(pth).read()
             open(pth, "w").write(line + body)
-        if case.get("outer_config"):
-            # the project lives inside another Conductor project: the NEAREST cond_config.toml is the root
-            open(os.path.join(sc.root, "cond_config.toml"), "w").write("disable_git = true\n")
-            open(os.path.join(sc.root, "COND"), "w").write("run_command(name='outer', run='true')\n")
         if case.get("git"):
             open(os.path.join(pr.root, ".gitignore"), "w").write("cond-out\nvendor\n")
             open(os.path.join(pr.root, "src.txt"), "w").write("0\n")
@@ -96,7 +92,16 @@ def eval_case(case):
         pristine = os.path.join(sc.root, "pristine")
         shutil.copytree(pr.root, pristine, symlinks=True)
         ref = None
-        for cwd in case["cwds"]:
+        cwds = list(case["cwds"])
+        if case.get("outer_config"):
+            cwds = cwds[:1] + [cwds[0]] + cwds[1:]   # the reference directory again, now with the outer project present
+        for cwd in cwds:
+            if ref is not None and case.get("outer_config") and not os.path.exists(os.path.join(sc.root, "cond_config.toml")):
+                # from here on the project lives inside another Conductor project: the NEAREST cond_config.toml
+                # is the root.  The reference run was made before the outer project existed.
+                open(os.path.join(sc.root, "cond_config.toml"), "w").write("disable_git = true\n")
+                open(os.path.join(sc.root, "COND"), "w").write("run_command(name='outer', run='true')\nrun_command(name='g', run='exit 3')\n")
+                bump("c17_nested_in_outer_project")
             shutil.rmtree(pr.root)
             shutil.copytree(pristine, pr.root, symlinks=True)
             if case.get("git"):
